@@ -246,7 +246,11 @@ class WFSA:
         return self.__class__.lift(EPSILON, self.R.one)
 
     def star(self):
-        return self.one + self.kleene_plus()
+        # The unit automaton must be over *this* automaton's semiring: `self.one`
+        # is a Float-weighted constant on the field subclass, and `lift` guesses
+        # the semiring from the weight's type (wrong for plain-number weights).
+        one = self.__class__.lift(EPSILON, self.R.one, R=self.R)
+        return one + self.kleene_plus()
 
     def kleene_plus(self):
         "self^+"
